@@ -1,5 +1,6 @@
 """C14 - reference value of a *source tree* (a text built from a literal / file / program output, transformed and
-concatenated) and the *defect models* used to classify deviations.  Never imports exactly_lib.
+concatenated) and the *defect model* of the one known finding (universal newlines) used to classify deviations.
+Never imports exactly_lib.
 
 A text is a string; its division into lines is "split after every '\\n'" (manual: "Every line ends with "\\n", except
 the last line, which may or may not end with "\\n"", "Lines are separated by "\\n", regardless of the current OS").
@@ -16,14 +17,19 @@ Transformers TR (a deliberately small set with unambiguous semantics; C05 owns t
     ['filter', LM]        LM = ['true'] | ['ln', OP, N] | ['has', CH]        (constant true / line-num OP N / contents matches CH)
     ['nums', [RANGE...]]  RANGE = [n] | [lo|None, hi|None]                   filter -line-nums
     ['grep', CH]
-    ['replace', ID, pnl]  ID in REPLACEMENTS
-    ['run', PROG, STDIN_TEXT | None]   PROG in PROGRAMS ('cat' = identity, 'tr' = a->X); stdin text is put before the model
+    ['replace', ID, pnl] | ['replace', ID, pnl, LM]   ID in REPLACEMENTS; pnl = -preserve-new-lines; LM = -at LINE-MATCHER
+    ['run', PROG, STDIN_TEXT | None]   PROG in PROGRAMS ('cat' = identity, 'tr' = a->X, 'count' = the number of times
+                          the program has been run so far, on a line of its own, then the input; the reference value
+                          is the one of the FIRST run - only used where exactly one run is demanded); stdin text is
+                          put before the model
     ['seq', TR, TR, ...]
 
-Everything is evaluated on *chunk lists* (a chunking of the text): with the proper chunking (``nl_split``) the result
-is the reference value; with the chunkings that the modelled defects produce it is the prediction of the defect.
+    ['stored', SRC]                     (CLI layer only) SRC written to a file that is then read as a text source
+    ['appended', [SRC, SRC, ...]]       (CLI layer only) a file that the texts are written to one after the other
+
+Transformers are evaluated on *chunk lists*; the chunks of a text are always its lines (``nl_split``).
 """
-from typing import Dict, FrozenSet, List, Optional, Sequence, Tuple
+from typing import Dict, List, Optional, Sequence, Tuple
 
 BREAKS = '\x0b\x0c\x1c\x1d\x1e\x85\u2028\u2029'  # what str.splitlines treats as a line break besides \n, \r, \r\n
 
@@ -37,9 +43,7 @@ REPLACEMENTS = {
     'SPdel': (' ', '', ' ', ''),
     'eE': ('é', 'E', 'é', 'E'),
 }
-PROGRAMS = {'cat': None, 'tr': ('a', 'X')}
-
-UNDECODABLE = ('\x00<undecodable>',)  # marker value in a closure: reading the text raises UnicodeDecodeError
+PROGRAMS = {'cat': None, 'tr': ('a', 'X'), 'count': None}
 
 _OPS = {'==': lambda a, b: a == b, '!=': lambda a, b: a != b, '<': lambda a, b: a < b, '<=': lambda a, b: a <= b,
         '>': lambda a, b: a > b, '>=': lambda a, b: a >= b}
@@ -55,11 +59,6 @@ def nl_split(text: str) -> Tuple[str, ...]:
     if parts[-1] != '':
         out.append(parts[-1])
     return tuple(out)
-
-
-def sl_split(text: str) -> Tuple[str, ...]:
-    """DEFECT MODEL D1 only: the chunks str.splitlines(keepends=True) gives."""
-    return tuple(text.splitlines(True))
 
 
 def universal(text: str) -> str:
@@ -122,9 +121,12 @@ def apply(tr, chunks: Sequence[str]) -> Tuple[str, ...]:
         return tuple(c for i, c in enumerate(chunks) if any(range_selects(r, i + 1, total) for r in tr[1]))
     if tag == 'replace':
         _, _, old, new = REPLACEMENTS[tr[1]]
+        at = tr[3] if len(tr) > 3 else None
         out = []
-        for c in chunks:
-            if tr[2] and c.endswith('\n'):
+        for i, c in enumerate(chunks):
+            if at is not None and not _lm(at, i + 1, c):
+                out.append(c)
+            elif tr[2] and c.endswith('\n'):
                 out.append(c[:-1].replace(old, new) + '\n')
             else:
                 out.append(c.replace(old, new))
@@ -134,6 +136,8 @@ def apply(tr, chunks: Sequence[str]) -> Tuple[str, ...]:
         sub = PROGRAMS[tr[1]]
         if sub is not None:
             text = text.replace(sub[0], sub[1])
+        if tr[1] == 'count':
+            text = '1\n' + text
         return nl_split(text)
     if tag == 'seq':
         for t in tr[1:]:
@@ -168,9 +172,11 @@ def ref_text(node) -> str:
     kind = node[0]
     if kind in ('str', 'lit', 'file', 'prog'):
         return node[1]
+    if kind == 'stored':
+        return ref_text(node[1])
     if kind == 'tr':
         return ''.join(apply(node[1], nl_split(ref_text(node[2]))))
-    if kind == 'concat':
+    if kind in ('concat', 'appended'):
         return ''.join(ref_text(p) for p in node[1])
     raise ValueError('source %r' % (node,))
 
@@ -180,7 +186,9 @@ def nodes_preorder(node) -> List:
     out = [node]
     if node[0] == 'tr':
         out += nodes_preorder(node[2])
-    elif node[0] == 'concat':
+    elif node[0] == 'stored':
+        out += nodes_preorder(node[1])
+    elif node[0] in ('concat', 'appended'):
         for p in node[1]:
             out += nodes_preorder(p)
     return out
@@ -204,172 +212,28 @@ def tr_tags(tr) -> List[str]:
     if tr[0] == 'run':
         return ['run-' + tr[1] + ('-stdin' if tr[2] is not None else '')]
     if tr[0] == 'replace':
-        return ['replace-' + tr[1]]
+        return ['replace-' + tr[1]] + (['replace-at'] if len(tr) > 3 and tr[3] is not None else [])
     return [tr[0]]
 
 
-# ---- DEFECT MODELS ------------------------------------------------------------------------------------------------
-# D1  a text held in memory (a constant string, or a text cached in memory after freezing) divides into lines with
-#     str.splitlines: \x0b \x0c \x1c \x1d \x1e \x85 \u2028 \u2029 and a lone \r end a "line".
-# D2  a text held in a file (an existing file, program output, a text cached on disk) is read in text mode with
-#     universal newlines: \r\n and \r arrive as \n - but not when the same text is handed over as a file.
-# D3  SpooledTextFile._rollover positions the new file with seek(<number of characters written so far>): when the
-#     characters written so far take more bytes than that, the following writes overwrite the tail of what was
-#     already written (and what is left over of the old tail stays behind the new data).
-# D4  a concatenation is written to a file part by part; a part that is the (not yet cached) output of a program is
-#     written by that program straight to the file descriptor while the parts written before it still sit in the
-#     file object's buffer: the program-made parts come first, the others follow when the file is closed.
-D1, D2, D3, D4 = 'D1', 'D2', 'D3', 'D4'
-IO_BUFFER = 8192  # D4 holds as long as the buffered parts are smaller than the file object's buffer
+# ---- DEFECT MODEL (the one known finding of this property) ---------------------------------------------------------
+# D2 (KF-C14-2)  a text held in a file (an existing file, the output of a program, a text cached on disk) is read in
+#     text mode with universal newlines: "\r\n" and a lone "\r" arrive as "\n" when the text is consumed as a string,
+#     line by line or written on - but not when the same text is handed over as a file (stdin of a program, `run`,
+#     byte comparison of two files).  A text held in memory (a literal, a text cached in memory) keeps its CR.
+#
+# A deviation is attributed to D2 when BOTH hold (see props/c14_onevalue.py):
+#   (a) the observed value is in the D2-closure of the reference value: the value obtained from the leaf texts by
+#       the reference semantics of every transformer / concatenation, with the translation ``universal`` applied at
+#       any subset of the places where a text can be read back from a file (file and program-output leaves, the
+#       output of a caching transformer - filter, grep, -line-nums, run -, a concatenation, the file a program reads);
+#   (b) the very same case shows no deviation at all when it is run again with text files opened without newline
+#       translation (the counterfactual "D2 repaired": open(..., newline='\n') for every text-mode open).
+# Anything else - in particular every deviation on a text without CR - is a violation.
+D2 = 'D2'
+KNOWN_ID = 'KF-C14-2'
 
-Write = Tuple[str, bool]  # (text, direct): direct = written by a program through the file descriptor
-
-
-def _d4_order(writes: Sequence[Write]) -> Optional[str]:
-    """D4: what ends up in a file when the direct writes overtake the buffered ones (None: same as proper order,
-    or the buffered text does not fit the file object's buffer)."""
-    directs = ''.join(t for t, d in writes if d)
-    others = ''.join(t for t, d in writes if not d)
-    if directs == '' or others == '' or len(others.encode('utf-8')) > IO_BUFFER:
-        return None
-    text = directs + others
-    return None if text == ''.join(t for t, _ in writes) else text
-
-
-def file_results(writes: Sequence[Write]) -> List[Tuple[bytes, FrozenSet[str]]]:
-    """The bytes of a plain file that the parts are written to one after the other, per defect assumption."""
-    out = [(''.join(t for t, _ in writes).encode('utf-8'), _NONE)]
-    t4 = _d4_order(writes)
-    if t4 is not None:
-        out.append((t4.encode('utf-8'), frozenset([D4])))
-    return out
-
-
-def spool_results(writes: Sequence[Write], buff: int) -> List[Tuple[bytes, FrozenSet[str]]]:
-    """The bytes of the spooled file (freeze) after the writes, per defect assumption (D3: position after the
-    roll-over = number of characters; D4: direct writes after the roll-over overtake buffered ones)."""
-    proper = ''.join(t for t, _ in writes).encode('utf-8')
-    buf = ''
-    for i, (w, direct) in enumerate(writes):
-        if not direct:
-            buf += w
-        if direct or len(buf) > buff:
-            rest_writes = list(writes[i:] if direct else writes[i + 1:])
-            pre = buf.encode('utf-8')
-            n = len(buf)
-            out = [(proper, _NONE)]
-            rest_variants = [(''.join(t for t, _ in rest_writes), _NONE)]
-            t4 = _d4_order(rest_writes)
-            if t4 is not None:
-                rest_variants.append((t4, frozenset([D4])))
-            for rest_text, tags in rest_variants:
-                rest = rest_text.encode('utf-8')
-                if tags:
-                    out.append((pre + rest, tags))
-                if rest and n != len(pre):
-                    out.append((pre[:n] + rest + pre[n + len(rest):], tags | {D3}))
-            return out
-    return [(proper, _NONE)]
-
-
-def concat_lines(parts: Sequence[Sequence[str]]) -> Tuple[str, ...]:
-    """How the concatenation walks over the lines of its parts, written out for chunk lists in which a chunk that
-    is not the last one of its part may lack the final '\\n' (which the proper division never gives; D1 does):
-    such a chunk is taken for "the unterminated last line" - it replaces an earlier one and is glued to the first
-    line of the next part."""
-    out = []
-    pending = None
-
-    def glue(s):
-        return s if pending is None else pending + s
-
-    for part in parts[:-1]:
-        for i, c in enumerate(part):
-            if i == 0:
-                if c.endswith('\n'):
-                    out.append(glue(c))
-                    pending = None
-                else:
-                    pending = glue(c)
-            elif c.endswith('\n'):
-                out.append(c)
-            else:
-                pending = c
-    last = parts[-1]
-    if last:
-        out.append(glue(last[0]))
-        out.extend(last[1:])
-    elif pending is not None:
-        out.append(pending)
-    return tuple(out)
-
-
-def _key(tags):
-    return (len(tags), sorted(tags))
-
-
-_NONE = frozenset()
-
-
-class Closure:
-    """value (tuple of chunks) -> smallest set of defect tags that predicts it."""
-
-    def __init__(self, limit: int = 3000):
-        self.values: Dict[Tuple[str, ...], FrozenSet[str]] = {}
-        self.limit = limit
-
-    def add(self, value: Tuple[str, ...], tags: FrozenSet[str]):
-        cur = self.values.get(value)
-        if cur is None:
-            if len(self.values) < self.limit:
-                self.values[value] = tags
-        elif _key(tags) < _key(cur):
-            self.values[value] = tags
-
-    def add_chunks(self, chunks: Tuple[str, ...], tags: FrozenSet[str], file_backed_possible: bool = True):
-        """A text produced as ``chunks`` and everything a later reader may make of it."""
-        self.add(chunks, tags)
-        self.add_text(''.join(chunks), tags, file_backed_possible)
-
-    def add_text(self, text: str, tags: FrozenSet[str], file_backed_possible: bool = True):
-        self.add(nl_split(text), tags)
-        sl = sl_split(text)
-        if sl != nl_split(text):
-            self.add(sl, tags | {D1})
-        if file_backed_possible and '\r' in text:
-            t2 = universal(text)
-            self.add(nl_split(t2), tags | {D2})
-            sl2 = sl_split(t2)
-            if sl2 != nl_split(t2):
-                self.add(sl2, tags | {D1, D2})
-
-    def add_bytes(self, results: Sequence[Tuple[bytes, FrozenSet[str]]], tags: FrozenSet[str], through=None):
-        """File contents (per defect assumption) that are read back as a text; ``through`` = a function from the
-        text to the chunks that are the value (a program that reads the file)."""
-        for b, t in results:
-            try:
-                text = b.decode('utf-8')
-            except UnicodeDecodeError:
-                self.add(UNDECODABLE, tags | t)
-                continue
-            if through is None:
-                self.add_text(text, tags | t)
-            else:
-                self.add_chunks(through(text), tags | t)
-
-    def texts(self) -> Dict[str, FrozenSet[str]]:
-        out: Dict[str, FrozenSet[str]] = {}
-        for v, tags in self.values.items():
-            if v is UNDECODABLE:
-                continue
-            t = ''.join(v)
-            cur = out.get(t)
-            if cur is None or _key(tags) < _key(cur):
-                out[t] = tags
-        return out
-
-
-FROM_LINES = ('identity', 'tcds', 'upper', 'lower', 'strip', 'replace')  # never cached by themselves: never spooled
+FROM_LINES = ('identity', 'tcds', 'upper', 'lower', 'strip', 'replace')  # never cached by themselves
 
 
 def normalise(node):
@@ -387,8 +251,10 @@ def normalise(node):
                 inner = ['tr', t, inner]
             return inner
         return ['tr', tr, inner]
-    if kind == 'concat':
-        return ['concat', [normalise(p) for p in node[1]]]
+    if kind in ('concat', 'appended'):
+        return [kind, [normalise(p) for p in node[1]]]
+    if kind == 'stored':
+        return ['stored', normalise(node[1])]
     return node
 
 
@@ -401,111 +267,78 @@ def _flat_seq(tr) -> List:
     return out
 
 
-def writes_directly(node) -> bool:
-    """(normalised node) its text is written to a file by a program through the file descriptor, unless cached."""
-    kind = node[0]
-    if kind == 'prog':
-        return node[2] == 'out' or bool(node[3])
-    if kind == 'tr':
-        if node[1][0] == 'run':
-            return True
-        if node[1][0] == 'nums' and not any(x is not None and x < 0 for r in node[1][1] for x in r):
-            # ranges that together select every line give the source itself
-            return writes_directly(node[2])
-    return False
+class Closure:
+    """text -> True when it is the reference value, False when only D2 gives it."""
+
+    def __init__(self, limit: int = 20000):
+        self.values: Dict[str, bool] = {}
+        self.limit = limit
+        self.truncated = False  # not every value could be kept: membership cannot be denied
+
+    def add(self, text: str, proper: bool):
+        cur = self.values.get(text)
+        if cur is None:
+            if len(self.values) < self.limit:
+                self.values[text] = proper
+            else:
+                self.truncated = True
+        elif proper and not cur:
+            self.values[text] = True
+
+    def add_file_held(self, text: str, proper: bool):
+        """A text that may be read back from a file."""
+        self.add(text, proper)
+        if '\r' in text:
+            self.add(universal(text), False)
 
 
-def closure(node, buff: int, limit: int = 3000) -> Closure:
-    """All values (chunkings) of the node that the defect models D1-D4 predict some consumer may see, including the
-    correct one (with the empty tag set)."""
-    return _closure(normalise(node), buff, limit)
+def closure(node, limit: int = 20000) -> Closure:
+    """Every value of the node that D2 predicts some consumer may see, including the reference value."""
+    return _closure(normalise(node), limit)
 
 
-def _flat_parts(node) -> List:
-    if node[0] == 'concat':
-        out = []
-        for p in node[1]:
-            out += _flat_parts(p)
-        return out
-    return [node]
-
-
-def _write_combos(cl: Closure, part_nodes, buff: int, limit: int, cap: int = 300):
-    """Combinations of the values of the parts and of the ways they are written to a file:
-    list of (tuple of chunk tuples, tuple of writes, tags)."""
-    combos = [((), (), _NONE)]
-    for p in part_nodes:
-        pc = _closure(p, buff, limit)
-        const = p[0] in ('str', 'lit')
-        direct = writes_directly(p)
-        nxt = []
-        for vs, ws, tags in combos:
-            for v, t in pc.values.items():
-                if v is UNDECODABLE:
-                    cl.add(UNDECODABLE, tags | t)
-                    continue
-                text = ''.join(v)
-                alts = []
-                if const:
-                    alts.append(((text, False),) if text else ())
-                else:
-                    alts.append(tuple((c, False) for c in v))  # line by line
-                    if text and len(v) > 1:
-                        alts.append(((text, False),))  # in one piece (a part that is cached in memory)
-                    if direct and text:
-                        alts.append(((text, True),))
-                for a in alts:
-                    nxt.append((vs + (v,), ws + a, tags | t))
-                if len(nxt) > cap:
-                    break
-            if len(nxt) > cap:
-                break
-        combos = nxt
-    return combos
-
-
-def _closure(node, buff: int, limit: int) -> Closure:
+def _closure(node, limit: int) -> Closure:
     kind = node[0]
     cl = Closure(limit)
     if kind in ('str', 'lit'):
-        cl.add_chunks(nl_split(node[1]), _NONE, False)
-        cl.add_text(node[1], _NONE, True)  # the text as a file: written in one piece, read back like any file
-    elif kind == 'file':
-        cl.add_text(node[1], _NONE)
-    elif kind == 'prog':
-        cl.add_text(node[1], _NONE)
-        # frozen after the output was cached in a file: the cached file is copied line by line to the spool
-        for t, tags in ((node[1], _NONE), (universal(node[1]), frozenset([D2]))):
-            cl.add_bytes(spool_results([(c, False) for c in nl_split(t)], buff), tags)
+        cl.add(node[1], True)  # held in memory; its file is only ever handed over as a file
+    elif kind in ('file', 'prog'):
+        cl.add_file_held(node[1], True)
+    elif kind == 'stored':
+        inner = _closure(node[1], limit)
+        cl.truncated = inner.truncated
+        for v, proper in inner.values.items():
+            cl.add_file_held(v, proper)
     elif kind == 'tr':
         tr = node[1]
-        inner = _closure(node[2], buff, limit)
-        for v, tags in list(inner.values.items()):
-            if v is UNDECODABLE:
-                cl.add(UNDECODABLE, tags)
-                continue
-            w = apply(tr, v)
-            cl.add_chunks(w, tags)
-            if tr[0] not in FROM_LINES:
-                for t, tg in ((''.join(w), tags), (universal(''.join(w)), tags | {D2})):
-                    for chunks in (w,) if tg is tags else (nl_split(t),):
-                        cl.add_bytes(spool_results([(c, False) for c in chunks], buff), tg)
-        if tr[0] == 'run' and tr[2]:
-            # the program reads the file made of its own stdin followed by the model
-            def through(text):
-                return apply(['run', tr[1], None], nl_split(text))
-
-            for vs, ws, tags in _write_combos(cl, [['str', tr[2]]] + _flat_parts(node[2]), buff, limit):
-                cl.add_bytes([r for r in file_results(ws) if r[1]], tags, through)
-    elif kind == 'concat':
-        for vs, ws, tags in _write_combos(cl, _flat_parts(node), buff, limit):
-            walked = concat_lines(vs)
-            flat = ''.join(c for v in vs for c in v)
-            # only chunkings that D1 produces make the walk over the lines lose or reorder text
-            cl.add_chunks(walked, tags | {D1} if ''.join(walked) != flat else tags)
-            cl.add_text(flat, tags)
-            cl.add_bytes(file_results(ws), tags)
-            cl.add_bytes(spool_results(ws, buff), tags)
+        cached = tr[0] not in FROM_LINES
+        inner = _closure(node[2], limit)
+        cl.truncated = inner.truncated
+        for v, proper in inner.values.items():
+            # (for `run` with stdin: the program reads the file made of its stdin followed by the model as written)
+            w = ''.join(apply(tr, nl_split(v)))
+            if cached:
+                cl.add_file_held(w, proper)
+            else:
+                cl.add(w, proper)
+    elif kind in ('concat', 'appended'):
+        combos = [('', True)]
+        for p in node[1]:
+            pc = _closure(p, limit)
+            cl.truncated = cl.truncated or pc.truncated
+            nxt = {}
+            for t, proper in combos:
+                for v, pr in pc.values.items():
+                    if len(nxt) >= limit:
+                        cl.truncated = True
+                        break
+                    nxt[t + v] = nxt.get(t + v, False) or (proper and pr)
+            combos = list(nxt.items())
+        for t, proper in combos:
+            if kind == 'concat':
+                cl.add_file_held(t, proper)
+            else:
+                cl.add(t, proper)  # the file is looked at as it is
     else:
         raise ValueError('source %r' % (node,))
     return cl
@@ -521,36 +354,27 @@ def head_of(chunks: Sequence[str], min_chars: int) -> str:
     return acc
 
 
-def classify_text(node, buff: int, observed: Optional[str]) -> Optional[FrozenSet[str]]:
-    """Tags of the defect models that predict the observed text (None: not predicted; observed None = the access
-    raised UnicodeDecodeError)."""
-    cl = closure(node, buff)
-    if observed is None:
-        return cl.values.get(UNDECODABLE)
-    tags = cl.texts().get(observed)
-    return tags if tags else None
+def d2_predicts_text(node, observed: str) -> bool:
+    """The observed text differs from the reference value and is a value that D2 predicts (part (a) of the model)."""
+    cl = closure(node)
+    return cl.values.get(observed) is False or (cl.truncated and observed not in cl.values)
 
 
-def classify_lines(node, buff: int, observed: Sequence[str]) -> Optional[FrozenSet[str]]:
-    cl = closure(node, buff)
-    tags = cl.values.get(tuple(observed))
-    return tags if tags else None
+def d2_predicts_lines(node, observed: Sequence[str]) -> bool:
+    """Lines are always the proper division of some text: D2 changes characters, never the rule of division."""
+    text = ''.join(observed)
+    return tuple(observed) == nl_split(text) and d2_predicts_text(node, text)
 
 
-def known_id(tags: FrozenSet[str]) -> str:
-    """One known-finding id per mismatch: the defect highest in D4 > D3 > D2 > D1 that takes part in the prediction."""
-    if D4 in tags:
-        return 'KF-C14-4'
-    if D3 in tags:
-        return 'KF-C14-3'
-    if D2 in tags:
-        return 'KF-C14-2'
-    return 'KF-C14-1'
+def d2_texts(node) -> List[str]:
+    """The values that only D2 gives."""
+    return [t for t, proper in closure(node).values.items() if not proper]
 
 
 # ---- matchers of the CLI layer -------------------------------------------------------------------------------------
 #   ['eq', SRC] equals SRC | ['cmp', TEXT] a program that compares its stdin with TEXT byte by byte | ['nl', N]
 #   num-lines == N | ['every-le', N] every line : line-num <= N | ['any', S] any line : contents equals S | ['empty']
+#   | ['matches', CH] matches CH (the regex CH = one plain character is found somewhere in the text)
 def matcher_value(m, chunks: Sequence[str], expected_text: Optional[str] = None) -> bool:
     kind = m[0]
     if kind == 'eq':
@@ -565,6 +389,8 @@ def matcher_value(m, chunks: Sequence[str], expected_text: Optional[str] = None)
         return any(_content(c) == m[1] for c in chunks)
     if kind == 'empty':
         return ''.join(chunks) == ''
+    if kind == 'matches':
+        return m[1] in ''.join(chunks)
     raise ValueError('matcher %r' % (m,))
 
 
@@ -573,30 +399,18 @@ def ref_verdict(actual_node, m) -> bool:
     return matcher_value(m, chunks, ref_text(m[1]) if m[0] == 'eq' else None)
 
 
-def defect_flips_verdict(actual_node, m, buff: int) -> Optional[FrozenSet[str]]:
-    """The smallest set of modelled defects under which the matcher's verdict differs from the reference verdict
-    (None: no modelled defect changes it).  'undecodable' in the result = reading a text raises."""
+def d2_flips_verdict(actual_node, m) -> bool:
+    """Part (a) of the defect model for a verdict: some value of the actual text (and, for `equals`, of the expected
+    text) that D2 predicts makes the matcher's verdict differ from the reference verdict."""
     ref = ref_verdict(actual_node, m)
-    acl = closure(actual_node, buff)
-    best = None
-
-    def consider(tags):
-        nonlocal best
-        if tags and (best is None or _key(tags) < _key(best)):
-            best = tags
-
-    exp = {None: _NONE}
+    acl = closure(actual_node).values
+    exp = {None: True}
     if m[0] == 'eq':
-        ecl = closure(m[1], buff)
-        exp = ecl.texts()
-        if UNDECODABLE in ecl.values:
-            consider(ecl.values[UNDECODABLE])
-    if UNDECODABLE in acl.values:
-        consider(acl.values[UNDECODABLE])
-    for v, tags in acl.values.items():
-        if v is UNDECODABLE:
-            continue
-        for et, etags in exp.items():
-            if matcher_value(m, v, et) != ref:
-                consider(tags | etags)
-    return best
+        exp = closure(m[1]).values
+    for v, proper in acl.items():
+        for et, eproper in exp.items():
+            if proper and eproper:
+                continue
+            if matcher_value(m, nl_split(v), et) != ref:
+                return True
+    return False
